@@ -27,7 +27,7 @@ Section ConcProofs.
     fst (step st o) = (if needs_save (st_mem st) o then save (cache_update (st_mem st) o) else st) /\
     (needs_save (st_mem st) o = false -> cache_update (st_mem st) o = st_mem st).
   Proof.
-    destruct o as [a|a c|a]; simpl; intro W.
+    destruct o as [a|a c|a|s']; simpl; intro W; [| | |repeat split; discriminate].
     - contradiction.
     - rewrite W. simpl. repeat split. discriminate.
     - destruct (lookup a (m_cache (st_mem st))); simpl; repeat split. discriminate.
